@@ -1,7 +1,7 @@
 (* C12 - FindService is answered only by matching, ready instances, by unicast, in time.  Function-level theorems
    over every world; wildcard matching itself is C19.  NOT proved end-to-end through the loop; checked on every run. *)
 From PS Require Import Lib.Base Generated.Consts Model.SdTypes Model.Config Model.Session Model.StackTypes Model.Stack
-  Proofs.StackOpsProofs.
+  Proofs.StackOpsProofs Model.Skel Generated.LogicGen Proofs.GenSkel.
 
 Theorem C12_who : forall e i w, inst_matches_find e i w = true <->
   exists ins, get_inst i w = Some ins /\ in_can_answer ins = true /\ matches_find (in_service ins) e = Ok true.
@@ -29,6 +29,12 @@ Theorem C12_not_ready_silent : forall i a w,
   (match get_inst i w with Some ins => in_can_answer ins = false | None => True end) -> answer_find i a w = w.
 Proof. exact answer_suppressed_when_not_ready. Qed.
 
+(* every FindService entry of a received message reaches the announcer, whatever precedes it in the message: the per-entry
+   dispatch of sd_message_received in the model IS the control flow translated from the source text on every run *)
+Theorem C12_dispatch_is_the_translated_source : forall h a mc w,
+  Some (sd_message_received h a mc w) = if gen_sd_accept (sd_unicast h) then run_dispatch (sd_entries h) a mc w else Some w.
+Proof. exact sd_message_received_is_the_translated_source. Qed.
+
 Print Assumptions C12_who.
 Print Assumptions C12_unicast_without_delay.
 Print Assumptions C12_multicast_within_window.
@@ -36,3 +42,4 @@ Print Assumptions C12_delay_in_window.
 Print Assumptions C12_nobody_else_answers.
 Print Assumptions C12_answer_content.
 Print Assumptions C12_not_ready_silent.
+Print Assumptions C12_dispatch_is_the_translated_source.
